@@ -7,6 +7,7 @@ import (
 	"runtime"
 	"strings"
 	"sync"
+	"sync/atomic"
 	"time"
 
 	"pgregory.net/rapid"
@@ -123,8 +124,15 @@ type Invocation struct {
 	SigCount  int
 	Swallowed bool // a fatal/panic signal was raised but the body still returned normally
 	Skips     int
-	Actions   int // completed actions
-	ASkips    int // skipped/aborted actions
+	Actions   int   // completed actions
+	ASkips    int   // skipped/aborted actions
+	CRetries  int   // Custom function attempts that were rejected
+	Rejects   int64 // rejected attempts observed by the harness' own closures during this invocation (lower bound)
+
+	rej0, key0 int64
+	outcome    string
+	OutHash    uint64 // hash of Outcome(), kept after compaction
+	Compacted  bool
 }
 
 // Interp runs a Prog against the *rapid.T the library under test hands out and keeps the invocation log.
@@ -135,6 +143,7 @@ type Interp struct {
 	Aborted    string // set when the harness had to break out of a library loop
 	Log        []*Invocation
 	Hook       func(x *Interp, t *rapid.T) // optional: runs instead of Prog.Body (C03 etc.)
+	OnDone     func(inv *Invocation)       // optional: called when the record of an invocation is complete
 
 	mu       sync.Mutex
 	gens     map[*GenSpec]*rapid.Generator[any]
@@ -185,6 +194,7 @@ func (x *Interp) Begin(t *rapid.T) *Invocation {
 	x.Finish()
 	inv := &Invocation{Idx: len(x.Log), Seq0: nextSeq(), TID: fmt.Sprintf("%p", t)}
 	inv.scopes = []*scope{{id: 0, kind: "prop", t: t, subs: x.gens}}
+	inv.rej0, inv.key0 = atomic.LoadInt64(&x.Env.Rejects), atomic.LoadInt64(&x.Env.KeyCalls)
 	x.Log = append(x.Log, inv)
 	x.cur = inv
 	x.actCount = 0
@@ -194,7 +204,33 @@ func (x *Interp) Begin(t *rapid.T) *Invocation {
 // Finish completes the record of the last invocation; call it after the library returned.
 func (x *Interp) Finish() {
 	if x.cur != nil && !x.cur.Done {
-		x.cur.finalize()
+		inv := x.cur
+		inv.finalize()
+		var keyed int64
+		for _, sc := range inv.scopes {
+			if sc.kind == "prop" {
+				for _, d := range sc.all {
+					if d.Spec != nil {
+						keyed += d.Spec.KeyedLen(d.Val)
+					}
+				}
+			}
+		}
+		dups := atomic.LoadInt64(&x.Env.KeyCalls) - inv.key0 - keyed
+		if dups < 0 {
+			dups = 0
+		}
+		inv.Rejects = atomic.LoadInt64(&x.Env.Rejects) - inv.rej0 + dups + int64(inv.ASkips) + int64(inv.CRetries)
+		inv.Outcome()
+		if x.OnDone != nil {
+			x.OnDone(inv)
+		}
+		// keep the first invocations and the most recent ones in full, summaries of the rest
+		if n := len(x.Log); n > 400 {
+			if old := x.Log[n-150]; !old.Compacted {
+				old.compact()
+			}
+		}
 	}
 }
 
@@ -492,6 +528,9 @@ var _ = errors.New
 // ---- Custom ----------------------------------------------------------------------------------------
 
 func (x *Interp) runCustom(s *GenSpec, subs map[*GenSpec]*rapid.Generator[any], t *rapid.T) any {
+	if x.cur == nil || x.cur.Done {
+		x.Begin(t) // used outside a property (Example): keep a record anyway
+	}
 	x.mu.Lock()
 	sc := &scope{id: len(x.cur.scopes), kind: "custom", t: t, subs: subs}
 	x.cur.scopes = append(x.cur.scopes, sc)
@@ -593,6 +632,7 @@ func (inv *Invocation) finalize() {
 		case "cend":
 			if !e.Normal && p.kind == "skip" {
 				p = flight{}
+				inv.CRetries++
 			}
 		case "aend":
 			if e.Normal {
@@ -667,5 +707,27 @@ func (inv *Invocation) DrawCanon() string {
 
 // Outcome is a comparable summary of an invocation.
 func (inv *Invocation) Outcome() string {
-	return fmt.Sprintf("%s|%s|%s|%s", inv.End, inv.Site, inv.WinMsg, inv.DrawCanon())
+	if inv.outcome == "" {
+		if inv.Compacted {
+			return fmt.Sprintf("%s|%s|%s|<draws #%x>", inv.End, inv.Site, inv.WinMsg, inv.OutHash)
+		}
+		inv.outcome = fmt.Sprintf("%s|%s|%s|%s", inv.End, inv.Site, inv.WinMsg, inv.DrawCanon())
+		inv.OutHash = hash64([]byte(inv.outcome))
+	}
+	return inv.outcome
+}
+
+// compact drops the bulky parts of a finished invocation (long runs: hundreds of thousands of invocations).
+func (inv *Invocation) compact() {
+	inv.Outcome()
+	inv.outcome = ""
+	inv.Compacted = true
+	inv.Events, inv.scopes, inv.Draws, inv.All, inv.Msgs = nil, nil, nil, nil, nil
+}
+
+// Same reports whether two invocations received the same committed draws and ended the same way.
+func (inv *Invocation) Same(o *Invocation) bool {
+	inv.Outcome()
+	o.Outcome()
+	return inv.OutHash == o.OutHash
 }
